@@ -48,14 +48,15 @@ func encodeFrame(f Frame) []byte {
 
 // decoder reassembles frames from the byte stream one side writes.
 type decoder struct {
-	buf []byte
+	buf    []byte
+	broken bool // the byte stream stopped making sense (a malformed frame went by)
 }
 
 var errNeedMore = errors.New("need more")
 
 func (d *decoder) next(keepData bool) (Frame, bool) {
 	b := d.buf
-	if len(b) == 0 {
+	if len(b) == 0 || d.broken {
 		return Frame{}, false
 	}
 	kind := -1
@@ -65,7 +66,11 @@ func (d *decoder) next(keepData bool) (Frame, bool) {
 		}
 	}
 	if kind < 0 {
-		panic(fmt.Sprintf("recording carrier: unknown kind byte %#x", b[0]))
+		// what follows a malformed frame cannot be delimited any more; the
+		// frames decoded so far (including the malformed one) stay in the log
+		d.broken = true
+		d.buf = nil
+		return Frame{}, false
 	}
 	if kind == kHb {
 		d.buf = b[1:]
